@@ -102,7 +102,7 @@ def writeFile (fs : FS) (p s : String) (w : Wr) : Result :=
 
 /-- `with open(p, "w") as f: f.write(<expr>)`: the text is computed AFTER the file was opened.
     No step of the LOCAL branches of the current `save` has this shape any more (fixes 8f1ace8, 0eab76f, 1bcbda4);
-    the fsspec branch (`saveFsspec`) still has it.  Also used for the regression examples of the pre-fix orders. -/
+    the fsspec branch had it until fix 8a0a805 (`saveFsspecOld`).  Also used for the regression examples of the pre-fix orders. -/
 def openThenWrite (fs : FS) (p : String) (d : Outcome) (w : Wr) : Result :=
   if !w.openOk then (.error .os, fs)
   else
@@ -211,26 +211,27 @@ def Input.resolved (env : Env) (i : Input) : Input :=
     through `Env.resolve` -/
 def saveR (env : Env) (fs : FS) (i : Input) : Result := save env fs (i.resolved env)
 
-/-! ### the fsspec branch (`if fsspec_support: ... path_sw = Path(path, mode="sw") ... if path_sw.is_fsspec:`)
+/-! ### the fsspec branch (`if fsspec_support: ... path_sc = Path(path, mode="sc") ... if path_sc.is_fsspec:`)
 
-Source order (jsonargparse/_core.py, `save`; `_util.Path.__init__`, block `elif not self._skip_check and is_fsspec`):
+Source order since fixes 22a2e9a (F60) and 8a0a805 (F61) (jsonargparse/_core.py, `save`):
 
   check_valid_dump_format(format)                         -- formatOk
-  path_sw = Path(path, mode="sw")                         -- PROBES the path: fsspec.open(abs, "w").open(); .close()
-                                                             i.e. creates / truncates it; FileNotFoundError, KeyError,
-                                                             PermissionError -> PathError (a TypeError) -> `pass` -> local
-                                                             branch, where Path(url, mode="fc") is a PathError
-  if multifile: raise NotImplementedError                 -- AFTER the probe
-  with fsspec.open(path, "w") as f:                       -- i.wr.openOk
-      f.write(self.dump(cfg, **dump_kwargs))              -- i.dump AFTER the open; i.wr.writeOk
+  path_sc = Path(path, mode="sc")                         -- recognition only: the mode has no r/w letter, so
+                                                             `_util.Path.__init__` does NOT open the path (tie_fsspec_probe)
+  if multifile: raise NotImplementedError                 -- before anything is looked at or touched
+  fs, fs_path = fsspec.core.url_to_fs(path_sc.absolute)
+  if not overwrite and fs.isfile(fs_path): raise ValueError("Refusing to overwrite existing file")   -- refuses
+  dump = self.dump(cfg, **dump_kwargs)                    -- i.dump BEFORE the open
+  with fsspec.open(path, "w") as f: f.write(dump)         -- i.wr
 
-There is no `check_overwrite` on this branch: `overwrite` is not looked at. -/
+i.e. the single-file local branch without `Path(fc)`.  The branch as it was before (`saveFsspecOld`: write-probe,
+no overwrite check, open before dump) is kept below as a regression record. -/
 structure FInput where
   path : String
   overwrite : Bool := false
   multifile : Bool := true
   formatOk : Bool := true
-  /-- outcome of the probing open-for-writing inside `Path(path, mode="sw")` -/
+  /-- only read by `saveFsspecOld`: outcome of the probing open-for-writing inside the former `Path(path, mode="sw")` -/
   probeOk : Bool := true
   dump : Outcome
   wr : Wr := {}
@@ -238,11 +239,40 @@ deriving DecidableEq, Repr
 
 def saveFsspec (fs : FS) (i : FInput) : Result :=
   if !i.formatOk then (.error .format, fs)
+  else if i.multifile then (.error .notImplemented, fs)
+  else if refuses i.overwrite fs i.path then (.error .refuse, fs)
+  else match i.dump with
+    | .fail e => (.error e, fs)
+    | .text s => writeFile fs i.path s i.wr
+
+/-- the fsspec block BEFORE fixes 22a2e9a / 8a0a805: `Path(path, mode="sw")` probed the path by opening it for writing
+    (created / truncated it), `NotImplementedError` came after that, there was no overwrite check, and the file was
+    opened before `dump` ran -/
+def saveFsspecOld (fs : FS) (i : FInput) : Result :=
+  if !i.formatOk then (.error .format, fs)
   else if !i.probeOk then (.error .path, fs)
   else
     let fs1 := fs.put i.path ""
     if i.multifile then (.error .notImplemented, fs1)
     else openThenWrite fs1 i.path i.dump i.wr
+
+/-- one call of `save`, on either branch -/
+inductive Target
+  | loc (env : Env) (i : Input)
+  | fsspec (i : FInput)
+
+def saveAny (fs : FS) : Target → Result
+  | .loc env i => save env fs i
+  | .fsspec i => saveFsspec fs i
+
+def Target.overwrite : Target → Bool
+  | .loc _ i => i.overwrite
+  | .fsspec i => i.overwrite
+
+/-- the call writes at most ONE file: local single-file mode, or the fsspec branch (which has no multi-file mode) -/
+def Target.singleFile : Target → Bool
+  | .loc _ i => !i.multifile
+  | .fsspec _ => true
 
 /-- the source order the definitions above implement, as data: compared by `decide` with the order
     extracted from /repo on every run (`Jap.Gen.SaveOrder`, theorems `tie_*` in Props/C18) -/
@@ -253,9 +283,18 @@ def modelSubCfgSteps : List String := ["path_fc", "check_overwrite", "serialise"
 def modelSubContentSteps : List String := ["path_fc", "check_overwrite", "get_content", "open", "write"]
 /-- the fsspec block of `save` (it follows "format"); `raise:NotImplementedError` is guarded by `if multifile` -/
 def modelFsspecSteps : List String :=
+  ["path_sc", "except:TypeError", "if:path_sc.is_fsspec", "if:multifile", "raise:NotImplementedError",
+   "if:not overwrite and fs.isfile(fs_path)", "raise:ValueError", "dump", "fsspec_open", "write", "return"]
+/-- the block as it was before 22a2e9a / 8a0a805 (`saveFsspecOld`) -/
+def oldFsspecSteps : List String :=
   ["path_sw", "except:TypeError", "if:path_sw.is_fsspec", "if:multifile", "raise:NotImplementedError", "fsspec_open", "dump", "write", "return"]
-/-- what `Path(mode="..w..")` does to an fsspec path: it opens it with the r/w letters of the mode and closes it -/
+/-- which file the overwrite check and the open of the fsspec block look at -/
+def modelFsspecFileExprs : List String :=
+  ["path_sc = Path(path, mode='sc')", "fs, fs_path = fsspec.core.url_to_fs(path_sc.absolute)", "open:path, 'w'"]
+/-- what `Path(mode=…)` does to an fsspec path: ONLY when the mode has an r/w letter it opens the path with those
+    letters and closes it.  `save` asks for "sc": no letter, no open (`saveFsspec` has no probe step); the former
+    "sw" opened the path for writing (`saveFsspecOld`: `fs.put path ""`) -/
 def modelFsspecProbe : List String :=
-  ["fsspec_mode = ''.join((c for c in mode if c in {'r', 'w'}))", "fsspec.open(abs_path, fsspec_mode)", "handle.open()", "handle.close()"]
+  ["fsspec_mode = ''.join((c for c in mode if c in {'r', 'w'}))", "if fsspec_mode", "fsspec.open(abs_path, fsspec_mode)", "handle.open()", "handle.close()"]
 
 end Jap.Save
